@@ -213,6 +213,74 @@ def worker(case, led):
                 led.check(ok, "post:TTNS.calc_1dof_entropy:dense_value", "TTNS.calc_1dof_entropy", "entropy differs from the dense value", key + ("s1", cplx), {}, rep)
             except Exception as e:
                 led.check(False, "post:TTNS.calc_1dof_entropy:total", "TTNS.calc_1dof_entropy", f"raised {type(e).__name__}: {e}", key + ("s1", cplx), {}, rep)
+            # ---- the remaining observables of the property text: two-site RDMs and the entropies built on the RDMs (sites, pairs of sites, pairs of dofs, mutual information)
+            phys = [ni for ni, node in enumerate(bt.node_list) if any(type(bb).__name__ != "BasisDummy" for bb in node.basis_sets)]
+
+            def node_sites(ni):
+                return [order.index(bb) for bb in bt.node_list[ni].basis_sets if type(bb).__name__ != "BasisDummy"]
+            try:
+                s1s = st.calc_1site_entropy()
+                ok = all(abs(s1s[ni] - entropy(np.linalg.eigvalsh(rdm_ref(v, dims, node_sites(ni))))) <= 1e-8 for ni in phys)
+                led.check(ok, "post:TTNS.calc_1site_entropy:dense_value", "TTNS.calc_1site_entropy", "site entropy differs from the entropy of the dense partial trace", key + ("s1site", cplx),
+                          {"complex_state": bool(cplx)}, rep)
+            except Exception as e:
+                led.check(False, "post:TTNS.calc_1site_entropy:total", "TTNS.calc_1site_entropy", f"raised {type(e).__name__}: {e}", key + ("s1site", cplx), {}, rep)
+            npairs = [(i_, j_) for i_ in phys for j_ in phys if i_ != j_][:6]
+            if npairs:
+                try:
+                    r2s = st.calc_2site_rdm(npairs)
+                    s2s = st.calc_2site_entropy(npairs)
+                    for (i_, j_) in npairs:
+                        sites = node_sites(i_) + node_sites(j_)
+                        ref = rdm_ref(v, dims, sites)
+                        got = np.asarray(r2s[(i_, j_)])
+                        okr = got.size == ref.size and close(got.reshape(ref.shape), ref, 1e-9)
+                        led.check(okr, "post:TTNS.calc_2site_rdm:partial_trace", "TTNS.calc_2site_rdm", f"nodes {(i_, j_)}: differs from the partial trace over their degrees of freedom (ket indices of "
+                                  f"the first node, then of the second, then the bra indices)", key + ("rdm2site", i_, j_, cplx), {"complex_state": bool(cplx), "reversed_pair": bool(i_ > j_)}, dict(rep, nodes=[i_, j_]))
+                        se = entropy(np.linalg.eigvalsh((ref + ref.conj().T) / 2))
+                        led.check(abs(s2s[(i_, j_)] - se) <= 1e-8, "post:TTNS.calc_2site_entropy:dense_value", "TTNS.calc_2site_entropy", f"nodes {(i_, j_)}: {s2s[(i_, j_)]} vs {se}",
+                                  key + ("s2site", i_, j_, cplx), {"complex_state": bool(cplx)}, dict(rep, nodes=[i_, j_]))
+                except Exception as e:
+                    led.check(False, "post:TTNS.calc_2site_rdm:total", "TTNS.calc_2site_rdm", f"raised {type(e).__name__}: {e}", key + ("rdm2site", cplx), {}, rep)
+            if len(order) >= 2:
+                dpairs = [(dofs[i_], dofs[j_]) for i_ in range(len(dofs)) for j_ in range(len(dofs)) if i_ != j_][:6]
+                try:
+                    s2d = st.calc_2dof_entropy(dpairs)
+                    mi, (e1, e2) = st.calc_2dof_mutual_info(dpairs)
+                    for (d1, d2) in dpairs:
+                        i_, j_ = dofs.index(d1), dofs.index(d2)
+                        ref = rdm_ref(v, dims, [i_, j_])
+                        s12 = entropy(np.linalg.eigvalsh((ref + ref.conj().T) / 2))
+                        sa, sb = entropy(np.linalg.eigvalsh(rdm_ref(v, dims, [i_]))), entropy(np.linalg.eigvalsh(rdm_ref(v, dims, [j_])))
+                        led.check(abs(s2d[(d1, d2)] - s12) <= 1e-8, "post:TTNS.calc_2dof_entropy:dense_value", "TTNS.calc_2dof_entropy", f"dofs {(d1, d2)}: {s2d[(d1, d2)]} vs {s12}",
+                                  key + ("s2dof", i_, j_, cplx), {"complex_state": bool(cplx), "same_node": bt.dof2idx[d1] == bt.dof2idx[d2]}, dict(rep, dofs=[repr(d1), repr(d2)]))
+                        led.check(abs(mi[(d1, d2)] - (sa + sb - s12) / 2) <= 1e-8 and abs(e2[(d1, d2)] - s12) <= 1e-8 and abs(e1[d1] - sa) <= 1e-8 and abs(e1[d2] - sb) <= 1e-8,
+                                  "post:TTNS.calc_2dof_mutual_info:dense_value", "TTNS.calc_2dof_mutual_info", f"dofs {(d1, d2)}: mutual information {mi[(d1, d2)]} vs (s_i + s_j - s_ij)/2 = {(sa + sb - s12) / 2}",
+                                  key + ("mi", i_, j_, cplx), {"complex_state": bool(cplx)}, dict(rep, dofs=[repr(d1), repr(d2)]))
+                except Exception as e:
+                    led.check(False, "post:TTNS.calc_2dof_mutual_info:total", "TTNS.calc_2dof_mutual_info", f"raised {type(e).__name__}: {e}", key + ("mi", cplx), {}, rep)
+            # bond entropies: the bond above node m cuts the tree into the subtree of m and the rest
+            try:
+                sb_ = np.asarray(st.calc_bond_entropy())
+                for ni, node in enumerate(st.node_list):
+                    if node.parent is None:
+                        continue
+                    sub = []
+                    stack = [node]
+                    while stack:
+                        x_ = stack.pop()
+                        sub += node_sites(st.node_idx[x_])
+                        stack += list(x_.children)
+                    if not sub or len(sub) == len(order):
+                        want = 0.0
+                    else:
+                        rr = rdm_ref(v, dims, sorted(sub))
+                        want = entropy(np.linalg.eigvalsh((rr + rr.conj().T) / 2))
+                    led.check(abs(sb_[ni] - want) <= 1e-7, "post:TTNS.calc_bond_entropy:entropy_of_the_subtree", "TTNS.calc_bond_entropy", f"bond above node {ni}: {sb_[ni]} vs entropy of its subtree {want}",
+                              key + ("sbond", ni, cplx), {"complex_state": bool(cplx)}, dict(rep, node=ni))
+            except Exception as e:
+                led.check(False, "post:TTNS.calc_bond_entropy:total", "TTNS.calc_bond_entropy", f"raised {type(e).__name__}: {e}", key + ("sbond", cplx), {}, rep)
+            led.check(close(T.dense_ttns(st, order), v, 1e-10), "frame:TTNS.calc_*:state_unchanged", "TTNS.calc_bond_entropy", "the observables changed the state they were computed from", key + ("obs-frame", cplx), {}, rep)
     # ---- chain -> tree conversion preserves the state
     if flavour in ("spinqn", "holstein"):
         from renormalizer.tn.tree import from_mps
